@@ -6,7 +6,7 @@ ID = 'C03'
 FLAVORS = ['default', 'strict']
 RULE = ('MATCH lines: pattern (<= 4 keywords from the vocabulary ABc, Xy, ABCd, Q, each optional/numeric or not, +-?; plus every pattern literal shipped in '
         'libscpi/test and examples) x header assembled from the pattern\'s own spellings (short/long, either case, digits, optional keywords present/absent) and near misses; '
-        'numbers array of 4, 1 and NULL. Non-trivial: accepted pairs and rejected pairs whose header shares the first keyword; distinct = distinct (pattern, header, n).')
+        'numbers array of 4, 1 and NULL; a third of the lines also on a strict ISO C build (-std=c99 without feature-test macros), where the library compares with its own case-insensitive routine. Non-trivial: accepted pairs and rejected pairs whose header shares the first keyword; distinct = distinct (pattern, header, n).')
 MODELLED = 'matchCommand/matchPattern/compareStr* are modelled by MatchModel (same cursor arithmetic); SCPI_Match/IsCmd/CommandNumbers are one-line wrappers, exercised through the scenario stream of C02'
 ASSUMPTIONS = ['acceptance is judged only for patterns in which no optional keyword shares a spelling with a keyword that may follow it (the property\'s side condition); other patterns are compared model vs implementation only']
 
